@@ -11,6 +11,7 @@ import env
 import framework as fw
 import samlbuild as sb
 import sp_common as spc
+import sp_history
 import tlc
 
 B = {'redirect': env.BINDING_REDIRECT, 'post': env.BINDING_POST, 'soap': env.BINDING_SOAP}
@@ -189,6 +190,8 @@ def main():
                       'binding x signature (none, valid, invalid, wrapped) x want_authn_requests_signed x twelve mutations x endpoint '
                       'configured for the arrival binding or not')
     chk.assumptions = list(fw.TOOL_ASSUMPTIONS)
+    # the receiver over time: SPHistory.tla with the IdP as receiver of signed requests
+    sp_history.run(chk, 'C10')
     sb.cleanup()
     return chk.finish()
 
@@ -196,6 +199,8 @@ def main():
 def do_replay(path):
     spc.init_worker()
     j = json.load(open(path))
+    if 'hist' in j['detail']['case']:
+        return sp_history.do_replay(j)
     obs = replay(j['detail']['case'])
     print(json.dumps(dict((k, v) for k, v in obs.items() if k != 'doc'), indent=1))
     return 0
